@@ -434,6 +434,12 @@ def run_impl(c):
         b = pjrpc.BatchRequest(strict=c['strict']) if req else pjrpc.BatchResponse(strict=c['strict'])
         mk = _build_req if req else _resp_from_spec_plain
         outs = []
+        wire_ok = True
+
+        def serialised():
+            # the wire form, directly and through the library encoder, is the array of the elements' wire forms - now
+            w = b.to_json()
+            return w == [m.to_json() for m in b] and json.loads(json.dumps(b, cls=pjrpc.JSONEncoder)) == json.loads(json.dumps(w))
         for o in c['ops']:
             try:
                 if o['k'] == 'append':
@@ -443,7 +449,11 @@ def run_impl(c):
                 outs.append('ok')
             except BaseException as ex:  # noqa
                 outs.append(core.exc_name(ex))
-        return {'outs': outs, 'final': enc_breq(b) if req else enc_bresp(b)}
+            try:
+                wire_ok = serialised() and wire_ok        # serialised after every operation (sent, grown, sent again)
+            except BaseException:  # noqa
+                wire_ok = False
+        return {'outs': outs, 'final': enc_breq(b) if req else enc_bresp(b), 'wire_follows_elements': wire_ok}
     raise core.InfraError(f'unknown msg op {op}')
 
 
@@ -469,7 +479,7 @@ def _drop_ids(x):
 
 
 C06_OPS = {'req_from_json', 'resp_from_json', 'err_from_json', 'breq_from_json', 'bresp_from_json', 'breq_hist', 'bresp_hist'}
-C05_OPS = {'req_build', 'err_build', 'resp_build', 'breq_build', 'bresp_build', 'req_from_json', 'resp_from_json',
+C05_OPS = {'breq_hist', 'bresp_hist', 'req_build', 'err_build', 'resp_build', 'breq_build', 'bresp_build', 'req_from_json', 'resp_from_json',
            'err_from_json', 'breq_from_json', 'bresp_from_json'}
 
 
@@ -479,12 +489,16 @@ def project(prop, c, out):
         if op not in C06_OPS:
             return None
         if op.endswith('_hist'):
-            return _sort_ids(out)
+            return _sort_ids({k: v for k, v in out.items() if k != 'wire_follows_elements'})
         # strict and total: accepted or not, and what is raised
         return {'raised': out['raised']} if 'raised' in out else {'ok': True}
     if prop == 'C05':
         if op not in C05_OPS:
             return None
+        if op.endswith('_hist'):
+            # a batch serialised, grown and serialised again: the wire form follows the elements (the model's toJson is a
+            # function of the current elements)
+            return {'wire_follows_elements': out.get('wire_follows_elements', True)}
         o = {k: v for k, v in out.items() if k not in ('text_equal', 'codec_ok')}
         return _drop_ids(o)            # the id *set* is bookkeeping for C06's duplicate check, not a wire field
     return None
@@ -594,6 +608,9 @@ def oracle(prop, c, out):
                 if got_ids != want_ids or sorted(json.dumps(i) for i in out['final']['ids']) != sorted(seen):
                     f.append(Finding(prop, 'batch-changed-by-refused-op', 'batch contents / id set differ from the accepted operations', c, out,
                                      {'elements': want_ids, 'ids': sorted(seen)}))
+    if prop == 'C05' and op.endswith('_hist') and not out.get('wire_follows_elements', True):
+        f.append(Finding(prop, 'stale-wire-form', f'{op}: after growing a batch that had been serialised, to_json() / the encoder do not '
+                                                  f'give the array of the current elements', c, out))
     if prop == 'C05' and op.endswith('_build') and out.get('built') == 'ok':
         if not out.get('text_equal') or not out.get('codec_ok'):
             f.append(Finding(prop, 'encoder-mismatch', 'json.dumps(to_json()) and json.dumps(cls=JSONEncoder) disagree', c, out))
